@@ -1,5 +1,5 @@
 (* Properties/C03.v — requests go out with the spec's method, path and parameter names. *)
-From LN Require Import Spec.Request Proofs.RequestP Proofs.EmitP.
+From LN Require Import Spec.Request Proofs.RequestP Proofs.EmitP Proofs.UrlP.
 
 (* the emitted request module builds its request with: the operation's verb, the URL of make_url, and the
    printed plan of the operation's inputs — nothing else touches `r` before it is sent (except authenticate) *)
@@ -29,6 +29,37 @@ Theorem C03_shortcut_refuted :
     run_plan ps ar (start (lit "get") (lit "/x")) = Ok r' /\ r_query r' <> expected_query ps ar.
 Proof. exact shortcut_refuted. Qed.
 Print Assumptions C03_shortcut_refuted.
+
+(* the URL, for every path template (literal pieces and {name} placeholders, names of any characters but braces):
+   the format string make_url emits is the template with each placeholder renamed to the identifier of the named
+   argument that carries the value of the path parameter of that name ... *)
+Theorem C03_url_format_string : forall o t args,
+  o_path o = render_tpl t -> forallb part_ok t = true ->
+  (forall n, In (PHole n) t -> exists i, sanitize n = Ok i) ->
+  filter is_path (o_params o) <> [] ->
+  mapM (fun p => do id <- field_ident (p_name p); Ok (id ++ Emit.t "= self.params ." ++ id)) (filter is_path (o_params o)) = Ok args ->
+  make_url o = Ok (Emit.t "& format!(" ++ sl (render_tpl (map rename_part t)) ++ Emit.t "," ++ sep_by (Emit.t ",") args ++ Emit.t ")").
+Proof. exact make_url_template. Qed.
+Print Assumptions C03_url_format_string.
+
+(* ... and the URL a request must go to (Sem/Request.v, compared with the recorded request of every executed call) is
+   the literal pieces with each placeholder replaced by the value given for the parameter of that name *)
+Theorem C03_url_value : forall t ar fuel,
+  forallb part_ok t = true ->
+  (forall n, In (PHole n) t -> exists v, arg_of ar n = Some (AScalar v)) ->
+  (length (render_tpl t) <= fuel)%nat ->
+  subst_url fuel (render_tpl t) ar = concat (map (value_of ar) t).
+Proof. exact subst_url_template. Qed.
+Print Assumptions C03_url_value.
+
+Theorem C03_url_nonvacuous :
+  let t := [PLit (lit "/v1.0/pets/"); PHole (lit "pet-id"); PLit (lit "/owners/"); PHole (lit "user.id")] in
+  let ar := [(lit "pet-id", Some (AScalar (lit "7"))); (lit "user.id", Some (AScalar (lit "ann")))] in
+  forallb part_ok t = true /\ render_tpl t = lit "/v1.0/pets/{pet-id}/owners/{user.id}" /\
+  fix_placeholders 50 (render_tpl t) = Ok (lit "/v1.0/pets/{pet_id}/owners/{user_id}") /\
+  subst_url 50 (render_tpl t) ar = lit "/v1.0/pets/7/owners/ann".
+Proof. vm_compute. repeat split; reflexivity. Qed.
+Print Assumptions C03_url_nonvacuous.
 
 Theorem C03_nonvacuous :
   let ps := [ {| p_name := lit "X-Trace"; p_ty := TString; p_loc := LHeader; p_optional := true; p_doc := None |};
